@@ -10,28 +10,32 @@ Section Top.
   Variable ix : indexer.
   Variables unicode utf16 : bool.
   Variable h : hay.
+  Variable okp : nat -> Prop.
   Notation IR := (ir_results ix unicode utf16 h).
-  Notation rres := (rres ix unicode utf16 h).
-  Notation ref := (ref ix unicode utf16 h).
-  Notation PRel := (PRel ix unicode utf16 h).
+  Notation rres := (rres ix unicode utf16 h okp).
+  Notation ref := (ref ix unicode utf16 h okp).
+  Notation al := (al ix unicode utf16 h okp).
+  Notation PRel := (PRel ix unicode utf16 h okp).
 
   Lemma rres_trans fwd a b c : rres fwd a b -> rres fwd b c -> rres fwd a c.
   Proof.
     intros [K1 H1] [K2 H2]. exists (K1 + K2)%nat. intros f Hf. rewrite Nat.add_assoc in *.
-    eapply frel_trans; [apply H1; eapply fuel_ok_le; [|exact Hf]; lia|apply H2; exact Hf].
+    eapply frelP_trans; [apply H1; eapply fuel_ok_le; [|exact Hf]; lia|apply H2; exact Hf].
   Qed.
 
-  Theorem search_ref n n' : rres true n n' ->
-    exists K, forall fuel ngroups tries p r, fuel_ok (fuel + K) ->
+  Theorem search_ref n n' :
+    (forall p p', okp p -> ix_next_right_pos ix h p = Ok (Some p') -> okp p') ->
+    rres true n n' ->
+    exists K, forall fuel ngroups tries p r, fuel_ok (fuel + K) -> okp p ->
       ir_search ix unicode utf16 h fuel n ngroups tries p = Some r ->
       ir_search ix unicode utf16 h (fuel + K) n' ngroups tries p = Some r.
   Proof.
-    intros [K H]. exists K. intros fuel ngroups tries p r Hf. revert p r. induction tries as [|t IH]; intros p r E; [discriminate|].
+    intros Hk5 [K H]. exists K. intros fuel ngroups tries p r Hf. revert p r. induction tries as [|t IH]; intros p r Hp E; [discriminate|].
     cbn [ir_search] in *.
     destruct (IR fuel n true (p, repeat gd_empty ngroups)) as [l|] eqn:El; [|discriminate].
-    destruct (H fuel Hf _ _ El) as [l' [El' D]]. rewrite El'. pose proof (dd_head _ _ D) as Hh.
+    destruct (H fuel Hf (p, repeat gd_empty ngroups) l Hp El) as [l' [El' D]]. rewrite El'. pose proof (dd_head _ _ D) as Hh.
     destruct l as [|y l]; destruct l' as [|y' l']; try contradiction.
-    - destruct (ix_next_right_pos ix h p) as [e|[p'|]]; try exact E. apply IH. exact E.
+    - destruct (ix_next_right_pos ix h p) as [e|[p'|]] eqn:En; try exact E. apply IH; [eapply Hk5; eauto|exact E].
     - subst y'. exact E.
   Qed.
 
@@ -47,7 +51,7 @@ Section Top.
 
   Lemma cat_goal_down fwd l0 : rres fwd (NCat (l0 ++ [NGoal])) (NCat l0).
   Proof.
-    apply (rres_fle ix unicode utf16 h fwd _ _ 0%nat). intros [|f] x r E; [discriminate|].
+    apply (rres_fle ix unicode utf16 h okp fwd _ _ 0%nat). intros [|f] x r E; [discriminate|].
     rewrite Nat.add_0_r. rewrite ir_cat_eq in *. rewrite cat_app_l in E.
     destruct (cat_results (fun c => IR f c fwd) l0 [x]) as [ys|]; [|discriminate].
     cbn [cat_results] in E. destruct (obindm (IR f NGoal fwd) ys) as [zs|] eqn:Ez; [|discriminate].
@@ -56,7 +60,7 @@ Section Top.
 
   Lemma cat_goal_up fwd l0 : rres fwd (NCat l0) (NCat (l0 ++ [NGoal])).
   Proof.
-    apply (rres_fle ix unicode utf16 h fwd _ _ 1%nat). intros [|f] x r E; [discriminate|].
+    apply (rres_fle ix unicode utf16 h okp fwd _ _ 1%nat). intros [|f] x r E; [discriminate|].
     replace (S f + 1)%nat with (S (S f)) by lia. rewrite ir_cat_eq in *. rewrite cat_app_l.
     assert (E' : cat_results (fun c => IR (S f) c fwd) l0 [x] = Some r).
     { eapply cat_fle2; [|exact E]. apply Forall2_same. intro a. apply ir_fuel_mono. lia. }
@@ -64,7 +68,7 @@ Section Top.
   Qed.
 
   Lemma rres_refl fwd n : rres fwd n n.
-  Proof. apply (ref_refl ix unicode utf16 h fwd n). Qed.
+  Proof. apply (ref_refl ix unicode utf16 h okp fwd n). Qed.
 
   Lemma rev_goal l r : rev l = NGoal :: r -> l = rev r ++ [NGoal].
   Proof. intro H. rewrite <- (rev_involutive l), H. reflexivity. Qed.
@@ -74,11 +78,11 @@ Section Top.
   Proof.
     destruct n; try apply rres_refl.
     - (* Goal -> Cat [] *)
-      apply (rres_fle ix unicode utf16 h true _ _ 0%nat). intros [|f] [p G] r E; [discriminate|].
+      apply (rres_fle ix unicode utf16 h okp true _ _ 0%nat). intros [|f] [p G] r E; [discriminate|].
       rewrite Nat.add_0_r. exact E.
     - (* CharSet [] -> Cat [CharSet []] *)
       destruct cs; [|apply rres_refl].
-      apply (rres_fle ix unicode utf16 h true _ _ 1%nat). intros [|f] [p G] r E; [discriminate|].
+      apply (rres_fle ix unicode utf16 h okp true _ _ 1%nat). intros [|f] [p G] r E; [discriminate|].
       replace (S f + 1)%nat with (S (S f)) by lia. cbn in E. inversion E; subst. reflexivity.
     - (* Cat *)
       cbn [ir_top]. destruct (rev l) as [|c r] eqn:Er; [apply rres_refl|].
@@ -88,45 +92,48 @@ Section Top.
   Lemma top_up n : rres true (ir_top n) n.
   Proof.
     destruct n; try apply rres_refl.
-    - apply (rres_fle ix unicode utf16 h true _ _ 0%nat). intros [|f] [p G] r E; [discriminate|].
+    - apply (rres_fle ix unicode utf16 h okp true _ _ 0%nat). intros [|f] [p G] r E; [discriminate|].
       rewrite Nat.add_0_r. exact E.
     - destruct cs; [|apply rres_refl].
-      apply (rres_fle ix unicode utf16 h true _ _ 0%nat). intros [|f] [p G] r E; [discriminate|].
+      apply (rres_fle ix unicode utf16 h okp true _ _ 0%nat). intros [|f] [p G] r E; [discriminate|].
       rewrite Nat.add_0_r. destruct f as [|f]; [discriminate|]. cbn in E. inversion E; subst. reflexivity.
     - cbn [ir_top]. destruct (rev l) as [|c r] eqn:Er; [apply rres_refl|].
       destruct c; try apply rres_refl. rewrite (rev_goal l r Er). apply cat_goal_up.
   Qed.
 
-  (* the search over the stripped optimized node returns what the search over the stripped original returns *)
-  Theorem top_search_ref n n' : ref true n n' ->
-    exists K, forall fuel ngroups tries p r, fuel_ok (fuel + K) ->
-      ir_search ix unicode utf16 h fuel (ir_top n) ngroups tries p = Some r ->
-      ir_search ix unicode utf16 h (fuel + K) (ir_top n') ngroups tries p = Some r.
-  Proof.
-    intros [Hr _]. apply search_ref.
-    eapply rres_trans; [apply top_up|]. eapply rres_trans; [exact Hr|apply top_down].
-  Qed.
-
-  (* the text hypotheses of the passes: elements are code points; bytes and elements agree below 128; one step of a
-     one-character node can be undone *)
+  (* the text hypotheses of the passes, at the well-formed positions [okp] (character boundaries): reading an element
+     or stepping to the next attempt leads to a well-formed position; elements are code points; bytes and elements
+     agree below 128; one step of a one-character node can be undone *)
   Definition text_ok : Prop :=
-    (forall fwd p c p', cnext ix fwd h p = Ok (Some (c, p')) -> c <= CODE_POINT_MAX) /\
-    (forall fwd q,
+    (forall fwd p c p', okp p -> cnext ix fwd h p = Ok (Some (c, p')) -> okp p') /\
+    (forall p p', okp p -> ix_next_right_pos ix h p = Ok (Some p') -> okp p') /\
+    (forall fwd p c p', okp p -> cnext ix fwd h p = Ok (Some (c, p')) -> c <= CODE_POINT_MAX) /\
+    (forall fwd q, okp q ->
        match next_byte fwd h q with
        | Ok (Some (b, q1)) => if b <? 128 then cnext ix fwd h q = Ok (Some (b, q1))
                               else exists c q2, cnext ix fwd h q = Ok (Some (c, q2)) /\ 128 <= c
        | Ok None => cnext ix fwd h q = Ok None
        | Err _ => True
        end) /\
-    (forall fwd q,
+    (forall fwd q, okp q ->
        match cnext ix fwd h q with
        | Ok (Some (c, q2)) => if c <? 128 then next_byte fwd h q = Ok (Some (c, q2))
                               else exists b q1, next_byte fwd h q = Ok (Some (b, q1)) /\ 128 <= b
        | Ok None => next_byte fwd h q = Ok None
        | Err _ => True
        end) /\
-    (forall body fwd s q q', matches_exactly_one_char body = true ->
+    (forall body fwd s q q', matches_exactly_one_char body = true -> okp q ->
        single_step ix unicode h (negb fwd) body fwd = Some s -> s q = Some (Some q') -> step_inv ix h fwd q q' = true).
+
+  (* the search over the stripped optimized node returns what the search over the stripped original returns *)
+  Theorem top_search_ref n n' : text_ok -> ref true n n' ->
+    exists K, forall fuel ngroups tries p r, fuel_ok (fuel + K) -> okp p ->
+      ir_search ix unicode utf16 h fuel (ir_top n) ngroups tries p = Some r ->
+      ir_search ix unicode utf16 h (fuel + K) (ir_top n') ngroups tries p = Some r.
+  Proof.
+    intros (_ & Hk5 & _) [Hr _]. apply search_ref; [exact Hk5|].
+    eapply rres_trans; [apply top_up|]. eapply rres_trans; [exact Hr|apply top_down].
+  Qed.
 
   (* optimize() is the composition of its passes: given the soundness of the single rewrites of form_literal_bytes
      (the one pass not proved), the optimized node refines the original one *)
@@ -135,7 +142,7 @@ Section Top.
     text_ok ->
     forall u16 n n', optimize u16 n = Ok n' -> PRel false n n'.
   Proof.
-    intros H4 (Hcp & Hb1 & Hb2 & Hstep) u16 n n' E. unfold optimize in E.
+    intros H4 (Hk1 & Hk5 & Hcp & Hb1 & Hb2 & Hstep) u16 n n' E. unfold optimize in E.
     destruct (run_to_fixpoint simplify_brackets PASS_FUEL n) as [e|n0] eqn:E0; [discriminate|]. cbn [bindR] in E.
     destruct (run_to_fixpoint decat PASS_FUEL n0) as [e|n1] eqn:E1; [discriminate|]. cbn [bindR] in E.
     destruct (run_to_fixpoint unroll_loops PASS_FUEL n1) as [e|n2] eqn:E2; [discriminate|]. cbn [bindR] in E.
@@ -143,24 +150,24 @@ Section Top.
     destruct (if u16 then Ok n3 else run_to_fixpoint form_literal_bytes PASS_FUEL n3) as [e|n4] eqn:E4; [discriminate|].
     cbn [bindR] in E.
     destruct (run_to_fixpoint remove_empties PASS_FUEL n4) as [e|n5] eqn:E5; [discriminate|]. cbn [bindR] in E.
-    eapply PRel_trans; [eapply brackets_pass_sound; [exact Hcp|exact Hb1|exact Hb2|exact E0]|].
+    eapply PRel_trans; [eapply brackets_pass_sound; [exact Hk1|exact Hcp|exact Hb1|exact Hb2|exact E0]|].
     eapply PRel_trans; [eapply decat_pass_sound; exact E1|].
     eapply PRel_trans; [eapply unroll_pass_sound; exact E2|].
     eapply PRel_trans; [eapply promote_pass_sound; [exact Hstep|exact E3]|].
     eapply PRel_trans; [|eapply PRel_trans; [eapply empties_pass_sound; exact E5|eapply fails_pass_sound; [exact Hcp|exact E]]].
-    destruct u16; [inversion E4; subst; apply PRel_refl|eapply (pass_sound ix unicode utf16 h _ H4); exact E4].
+    destruct u16; [inversion E4; subst; apply PRel_refl|eapply (pass_sound ix unicode utf16 h okp _ H4); exact E4].
   Qed.
 
   (* the utf16 build compiles form_literal_bytes out: there the whole of optimize() is covered *)
   Theorem optimize_sound_utf16_build : text_ok -> forall n n', optimize true n = Ok n' -> PRel false n n'.
   Proof.
-    intros (Hcp & Hb1 & Hb2 & Hstep) n n' E. unfold optimize in E.
+    intros (Hk1 & Hk5 & Hcp & Hb1 & Hb2 & Hstep) n n' E. unfold optimize in E.
     destruct (run_to_fixpoint simplify_brackets PASS_FUEL n) as [e|n0] eqn:E0; [discriminate|]. cbn [bindR] in E.
     destruct (run_to_fixpoint decat PASS_FUEL n0) as [e|n1] eqn:E1; [discriminate|]. cbn [bindR] in E.
     destruct (run_to_fixpoint unroll_loops PASS_FUEL n1) as [e|n2] eqn:E2; [discriminate|]. cbn [bindR] in E.
     destruct (run_to_fixpoint promote_1char_loops PASS_FUEL n2) as [e|n3] eqn:E3; [discriminate|]. cbn [bindR] in E.
     destruct (run_to_fixpoint remove_empties PASS_FUEL n3) as [e|n5] eqn:E5; [discriminate|]. cbn [bindR] in E.
-    eapply PRel_trans; [eapply brackets_pass_sound; [exact Hcp|exact Hb1|exact Hb2|exact E0]|].
+    eapply PRel_trans; [eapply brackets_pass_sound; [exact Hk1|exact Hcp|exact Hb1|exact Hb2|exact E0]|].
     eapply PRel_trans; [eapply decat_pass_sound; exact E1|].
     eapply PRel_trans; [eapply unroll_pass_sound; exact E2|].
     eapply PRel_trans; [eapply promote_pass_sound; [exact Hstep|exact E3]|].
